@@ -36,6 +36,25 @@ CHECKS = {
         "The statement itself is the model (all keys str, 1 <= size <= k).",
         "6 C06",
     ),
+    "C07": (
+        "exploration",
+        "runtime monitoring: canonical-inhabitant conformance oracle + trigger predicates over the real TypeRewriter.rewrite calls",
+        "Every grammar type up to the node bound (exhaustive), sampled types/unions beyond and types inferred from values are fed to "
+        "each shipped rewriter, the default chain stage by stage and ordered pairs through ChainedRewriter: no exception, every "
+        "canonical inhabitant and real witness of the input still admitted, result structurally unchanged unless the documented "
+        "trigger is present.",
+        "Trusts vf/oracle/inhabit.py, triggers.py, conform.py; C[Any] read observationally (the observed empty container).",
+        "6 C07",
+    ),
+    "C08": (
+        "exploration",
+        "runtime monitoring: encode/decode round trips of generated types and CallTraces judged by the structural-equality oracle",
+        "Inferable types (grammar-complete to the node bound, sampled beyond, inferred from values at every k, rewritten forms) and "
+        "CallTraces over fixture functions of every kind are round-tripped through type_to_json/type_from_json, CallTraceRow and "
+        "SQLiteStore; decoded objects compared structurally; encodings of independently built structurally identical types compared.",
+        "Trusts vf/oracle/rt.py; Tuple[T, ...] / Generator are outside the statement's domain.",
+        "6 C08",
+    ),
 }
 
 PENDING = {}
